@@ -31,6 +31,13 @@ func init() {
 		}
 		return &fsad.Adapter{Cfg: cfg}
 	}
+	// Mount.tla: mount.FS over several mem.FS
+	modules["mount"] = func(kind string, o *Opts) engine.Adapter {
+		cfg := fsad.MConfig{PropRoute: o.attr("route", "C06"), Seed: o.Seed, Repeat: 8}
+		cfg.Config = fsad.Config{AdapterName: kind, PropState: o.attr("state", "C06"), PropErr: o.attr("err", "C05"), PropWF: o.attr("wf", "C03"),
+			PropList: o.attr("list", "C16"), Names: o.Names, Depth: o.Depth}
+		return &fsad.MAdapter{Cfg: cfg}
+	}
 	// Handles.tla: handles on one regular file
 	modules["handles"] = func(kind string, o *Opts) engine.Adapter {
 		cfg := fsad.HConfig{AdapterName: kind, PropIO: o.attr("io", "C02"), PropClosed: o.attr("closed", "C17"), MkFS: mkfs(kind)}
